@@ -153,7 +153,7 @@ var compileProp = fw.Register(&fw.Prop[CompileCase]{
 // ---------------------------------------------------------------- (b) run
 
 type RunCase struct {
-	Src     string  `json:"src"`
+	Src     fw.BStr `json:"src"`
 	Grammar string  `json:"grammar"`
 	Ctx     tree.ID `json:"ctx"`
 	Mode    string  `json:"mode"` // current | mach
@@ -173,24 +173,24 @@ func genRun(t *rapid.T) RunCase {
 	c := RunCase{Grammar: "expr", Mode: "current"}
 	switch rapid.IntRange(0, 5).Draw(t, "source") {
 	case 0:
-		c.Src = c01.Source(c01.Gen(t))
+		c.Src = fw.BStr(c01.Source(c01.Gen(t)))
 	case 1:
 		cc := c02.Gen(t)
-		c.Src = c02.Source(cc)
+		c.Src = fw.BStr(c02.Source(cc))
 		c.Ctx = cc.Ctx
 	case 2:
-		c.Src = c03.Source(c03.Gen(t))
+		c.Src = fw.BStr(c03.Source(c03.Gen(t)))
 	case 3:
-		c.Src = oddPrograms[rapid.IntRange(0, len(oddPrograms)-1).Draw(t, "odd")]
+		c.Src = fw.BStr(oddPrograms[rapid.IntRange(0, len(oddPrograms)-1).Draw(t, "odd")])
 	case 4:
 		// two odd programs joined by an operator
 		ops := []string{" or ", " = ", " + ", " | ", " and ", " < "}
-		c.Src = oddPrograms[rapid.IntRange(0, len(oddPrograms)-1).Draw(t, "odd1")] + ops[rapid.IntRange(0, len(ops)-1).Draw(t, "op")] +
-			oddPrograms[rapid.IntRange(0, len(oddPrograms)-1).Draw(t, "odd2")]
+		c.Src = fw.BStr(oddPrograms[rapid.IntRange(0, len(oddPrograms)-1).Draw(t, "odd1")] + ops[rapid.IntRange(0, len(ops)-1).Draw(t, "op")] +
+			oddPrograms[rapid.IntRange(0, len(oddPrograms)-1).Draw(t, "odd2")])
 	default:
 		c.Grammar = []string{"leafref", "path_eval"}[rapid.IntRange(0, 1).Draw(t, "g2")]
-		c.Src = []string{"../a", "../../a/b", "/a/b", "/a[k=current()/../x]/b", "../a[k = current()/../../y/z]/c", "/a:b/c",
-			"a", "a/b[k='x']/c", "/a | /b", "../a = 3", "count(/a) > 1"}[rapid.IntRange(0, 10).Draw(t, "lr")]
+		c.Src = fw.BStr([]string{"../a", "../../a/b", "/a/b", "/a[k=current()/../x]/b", "../a[k = current()/../../y/z]/c", "/a:b/c",
+			"a", "a/b[k='x']/c", "/a | /b", "../a = 3", "count(/a) > 1"}[rapid.IntRange(0, 10).Draw(t, "lr")])
 	}
 	if c.Ctx == nil {
 		c.Ctx = tree.ID{{Name: "top"}, {Name: "ctx"}}
@@ -241,12 +241,12 @@ func valueOrError(res *xpath.Result) string {
 
 func checkRun(c RunCase) fw.Outcome {
 	out := fw.Outcome{Labels: []string{"mode:" + c.Mode, "grammar:" + c.Grammar}}
-	m, err := build(c.Grammar, c.Src, false)
+	m, err := build(c.Grammar, string(c.Src), false)
 	if err != nil {
 		out.Labels = append(out.Labels, "does-not-compile")
 		return out
 	}
-	out.Key = c.Grammar + "|" + c.Src + "@" + c.Ctx.String() + c.Mode
+	out.Key = c.Grammar + "|" + string(c.Src) + "@" + c.Ctx.String() + c.Mode
 	var res *xpath.Result
 	var tr *tree.Tree
 	done := fw.WithTimeout(20, func() { res, tr = runOnce(m, c, 0) })
@@ -254,7 +254,7 @@ func checkRun(c RunCase) fw.Outcome {
 		out.Violation = fmt.Sprintf("Run() of %q did not return within the watchdog", c.Src)
 		return out
 	}
-	out.NonTrivial = tr.Calls() > 0 || strings.ContainsAny(c.Src, "[|")
+	out.NonTrivial = tr.Calls() > 0 || strings.ContainsAny(string(c.Src), "[|")
 	if res != nil && res.GetError() != nil {
 		out.Labels = append(out.Labels, "run-error")
 	} else {
@@ -292,14 +292,14 @@ var faultRuns atomic.Int64
 func checkFault(c RunCase) fw.Outcome {
 	out := fw.Outcome{}
 	c.Mode = "current"
-	m, err := build(c.Grammar, c.Src, false)
+	m, err := build(c.Grammar, string(c.Src), false)
 	if err != nil {
 		out.Skip = true
 		return out
 	}
 	_, tr0 := runOnce(m, c, 0)
 	n := tr0.Calls()
-	out.Key = c.Grammar + "|" + c.Src + "@" + c.Ctx.String()
+	out.Key = c.Grammar + "|" + string(c.Src) + "@" + c.Ctx.String()
 	out.Labels = append(out.Labels, fmt.Sprintf("callbacks:%d", min(n, 9)))
 	out.NonTrivial = n >= 2
 	faultRuns.Add(int64(n))
